@@ -592,7 +592,14 @@ func genHostileName(rt *rapid.T) string {
 		return " from " + a + " port " + genPort(rt, l+".p")
 	}
 	var s string
-	switch rapid.IntRange(0, 11).Draw(rt, "nk") {
+	switch rapid.IntRange(0, 12).Draw(rt, "nk") {
+	case 12:
+		// a name around a phrase that other message forms are recognised by
+		var f []string
+		s = genAccount(rt, "u", &f) + pick(rt, "phrase", []string{": bad owner or modes for ", " revoked by file ", " in revoked keys file ",
+			" not allowed because ", " ROOT LOGIN REFUSED FROM ", " is set up for ", " maximum authentication attempts exceeded for ",
+			" Certificate invalid: ", " ID x (serial 1) CA ", " Accepted password for ", " Accepted publickey for ", " Failed password for ",
+			" Invalid user ", " reverse mapping checking getaddrinfo for ", " POSSIBLE BREAK-IN ATTEMPT!", " [preauth]", ": "}) + genAccount(rt, "u2", &f)
 	case 9:
 		// long names, up to sshd's %.100s truncation
 		n := rapid.IntRange(80, 100).Draw(rt, "longn")
